@@ -608,12 +608,37 @@ pub struct BatchCase {
     /// every k-th future schedules another immediately-ready future from inside its poll (0 = none)
     pub nested_every: u32,
     pub from_cb: bool,
+    /// one more future that yields this many times (wakes its own waker and returns Pending) before it completes:
+    /// every one of its polls is a runnable of the batch like any other - the batch per dispatch stays bounded
+    #[serde(default)]
+    pub yields: u32,
+}
+
+thread_local! {
+    /// polls of the batch family's futures since the last reset (the family runs on one thread)
+    static BATCH_POLLS: std::cell::Cell<u32> = const { std::cell::Cell::new(0) };
+}
+
+struct Yielder(u32, u32);
+impl Future for Yielder {
+    type Output = u32;
+    fn poll(mut self: Pin<&mut Self>, cx: &mut Context<'_>) -> Poll<u32> {
+        BATCH_POLLS.with(|p| p.set(p.get() + 1));
+        if self.0 > 0 {
+            self.0 -= 1;
+            cx.waker().wake_by_ref();
+            Poll::Pending
+        } else {
+            Poll::Ready(self.1)
+        }
+    }
 }
 
 struct Ready(u32, Option<(Scheduler<u32>, u32)>);
 impl Future for Ready {
     type Output = u32;
     fn poll(mut self: Pin<&mut Self>, _: &mut Context<'_>) -> Poll<u32> {
+        BATCH_POLLS.with(|p| p.set(p.get() + 1));
         if let Some((s, v)) = self.1.take() {
             let _ = s.schedule(Ready(v, None));
         }
@@ -652,10 +677,31 @@ fn run_batch(c: &BatchCase) -> CaseOutcome {
     if from_cb && c.n > 0 {
         want.push(2_000_000);
     }
+    if c.yields > 0 {
+        info.classes.push("self_yielding_future");
+        sch.schedule(Yielder(c.yields, 3_000_000)).expect("schedule");
+        want.push(3_000_000);
+        if from_cb && c.n == 0 {
+            want.push(2_000_000);
+        }
+    }
     let mut got: Vec<u32> = vec![];
-    let rounds = want.len() as u32 / 1024 + 3;
+    let rounds = (want.len() as u32 + c.yields) / 1024 + 3;
+    let mut most_polls = 0u32;
     for _ in 0..rounds {
+        BATCH_POLLS.with(|p| p.set(0));
         el.dispatch(Some(Duration::ZERO), &mut got).expect("dispatch");
+        most_polls = most_polls.max(BATCH_POLLS.with(|p| p.get()));
+    }
+    if most_polls > 1024 {
+        return (
+            info,
+            Some(Violation::new(
+                "C10.batch",
+                format!("one dispatch polled {most_polls} runnables ({} ready futures, one future yielding {} times): the batch per dispatch is bounded by 1024", c.n, c.yields),
+            )
+            .with_sig("C10.batch/unbounded")),
+        );
     }
     let mut a = got.clone();
     a.sort_unstable();
@@ -1062,7 +1108,7 @@ pub fn check(ctx: &CheckCtx) -> Option<Found> {
     }
     for n in [0u32, 1, 2, 1023, 1024, 1025, 2047, 2048, 2100, 3100] {
         for (nested_every, from_cb) in [(0u32, false), (1, false), (7, true)] {
-            let c = BatchCase { n, nested_every, from_cb };
+            let c = BatchCase { n, nested_every, from_cb, yields: if nested_every == 1 { 0 } else if from_cb { 2500 } else { 1100 } };
             let (info, v) = run_batch(&c);
             ctx.col.record(&info, || serde_json::to_value(&c).unwrap());
             if let Some(v) = v {
@@ -1087,7 +1133,7 @@ pub fn check(ctx: &CheckCtx) -> Option<Found> {
     if let Some(f) = ctx.search("stream_burst", sb, t.pick(150, 3000), 8, None, run_stream_burst) {
         return Some(f);
     }
-    let bs = (0u32..3300, prop_oneof![Just(0u32), 1u32..50], any::<bool>()).prop_map(|(n, nested_every, from_cb)| BatchCase { n, nested_every, from_cb });
+    let bs = (0u32..3300, prop_oneof![Just(0u32), 1u32..50], any::<bool>(), prop_oneof![2 => Just(0u32), 1 => 1u32..3000]).prop_map(|(n, nested_every, from_cb, yields)| BatchCase { n, nested_every, from_cb, yields });
     if let Some(f) = ctx.search("batch", bs, t.pick(200, 5000), 8, None, run_batch) {
         return Some(f);
     }
